@@ -1117,6 +1117,7 @@ def check_koszul_sign(facts, rep):
     from symex import apply_closure
     inst = 'TngComplex::connect_edges|d(v x w) = dv x w + (-1)^{deg v} v x dw'
     fam = {}
+    variants = {}
     src_at_add = set()
     try:
         for p in SymEx(outer, havoc_loops=True, max_paths=5000).run():
@@ -1128,7 +1129,13 @@ def check_koszul_sign(facts, rep):
                         continue
                     for q in apply_closure(e.args[1], [('item',)]) or []:
                         if q.end == 'return' and q.ret and strip(q.ret)[0] == 'tuple' and len(strip(q.ret)[1]) in (2, 3):
-                            fam[(m0.group(1), m0.group(2))] = [dk(x).replace("('item',)", 'ITEM') for x in strip(q.ret)[1]]
+                            comps_ = [dk(x).replace("('item',)", 'ITEM') for x in strip(q.ret)[1]]
+                            variants.setdefault((m0.group(1), m0.group(2)), [])
+                            if comps_ not in variants[(m0.group(1), m0.group(2))]:
+                                variants[(m0.group(1), m0.group(2))].append(comps_)
+                            # the family is described by a path that glues and (possibly) signs; other paths are compared with it below
+                            if (m0.group(1), m0.group(2)) not in fam or ('connected(' in comps_[-1] and 'connected(' not in fam[(m0.group(1), m0.group(2))][-1]) or ('from_sign(' in comps_[-1] and 'from_sign(' not in fam[(m0.group(1), m0.group(2))][-1]):
+                                fam[(m0.group(1), m0.group(2))] = comps_
                 if n == 'add_edge' and len(e.args) == 4:
                     src_at_add.add(dk(e.args[1]))
     except Exception as ex:
@@ -1190,6 +1197,27 @@ def check_koszul_sign(facts, rep):
                 probs.append('the exponent mixes the weight of the %s key with the shift of the %s complex' % (deg_of, i0[1]))
             if deg_of == signed[0]:
                 probs.append('the family differentiating the %s factor carries (-1)^{deg of the %s factor}: the two families commute, d.d != 0' % (signed[0], deg_of))
+    # every other path that produces an edge of a family: the same value, or - gluing to the identity of an empty tangle
+    # being a no-op - the bare edge; the sign of a signed family must be there on every path
+    for key_, vs_ in variants.items():
+        for comps_ in vs_:
+            if comps_ == fam.get(key_):
+                continue
+            val_ = comps_[-1]
+            bare = re.match(r'part_eval\((?:clone\()?edge\(arg1\.\^(left|right), arg2\.([01]), ITEM\)\)?, arg1\.\^h, arg1\.\^t\)$', val_)
+            rec_ = left if key_[0] == 'left' else right
+            if comps_[:-1] != fam[key_][:-1]:
+                rep.indet('E8.F11: two paths of connect_edges give an edge of the %s family different ends' % key_[0])
+                return
+            if bare and rec_ and rec_['signed']:
+                probs.append('on one path the %s family carries its sign, on another (the bare edge, without the gluing) it does not: for a split diagram the squares of the second component commute, d.d != 0 over Z' % key_[0])
+            elif bare:
+                continue
+            elif 'from_sign(' in fam[key_][-1] and 'from_sign(' not in val_:
+                probs.append('the sign of the %s family is missing on one of its paths' % key_[0])
+            else:
+                rep.indet('E8.F11: a second form of the %s edge value: %s' % (key_[0], val_[:160]))
+                return
     if probs:
         rep.violation('E8.F11-koszul-sign', inst, 'TngComplex::connect_edges: ' + '; '.join(probs), where=outer.where())
     else:
